@@ -16,7 +16,7 @@ def elemOfJson (j : Json) : Except String Elem := do
     let tag ← a[0].getStr?
     let arg : Json := a.getD 1 .null
     match tag with
-    | "wait" => pure .wait
+    | "wait" => do let b ← arg.getBool?; pure (.wait b)
     | "step" => do let b ← arg.getBool?; pure (.step b)
     | "rl" => pure .restartLabel
     | "goto" => do let t ← optNat arg; pure (.goto t)
